@@ -225,6 +225,12 @@ pub fn run_prop(ctx: &Ctx, sink: &mut Sink) {
         SysCase { stack: UNLIMITED, n: 0, s: 0, envc: 0, envlen: 0, groups: vec![(400_000, 6)] },
         SysCase { stack: 8 << 20, n: 0, s: 0, envc: 0, envlen: 0, groups: vec![(3, 10), (1, 200_000), (3, 10)] },
         SysCase { stack: 256 << 10, n: 0, s: 0, envc: 0, envlen: 0, groups: vec![(100_000, 1)] },
+        // the per-argument limit, byte-exact (an argument plus its NUL may take 32 pages)
+        SysCase { stack: 8 << 20, n: 0, s: 0, envc: 0, envlen: 0, groups: vec![(3, 10), (1, 131_070), (3, 10)] },
+        SysCase { stack: 8 << 20, n: 0, s: 0, envc: 0, envlen: 0, groups: vec![(3, 10), (1, 131_071), (3, 10)] },
+        SysCase { stack: 8 << 20, n: 0, s: 0, envc: 0, envlen: 0, groups: vec![(3, 10), (1, 131_072), (3, 10)] },
+        SysCase { stack: UNLIMITED, n: 0, s: 0, envc: 5, envlen: 40, groups: vec![(1, 131_072)] },
+        SysCase { stack: 8 << 20, n: 2, s: 0, envc: 0, envlen: 0, groups: vec![(2, 131_071), (1, 131_073), (1, 8)] },
     ];
     let nrand = if ctx.thorough { 70 } else { 6 };
     for _ in 0..nrand {
